@@ -188,6 +188,39 @@ def TokenResponse.IDToken! (r : TokenResponse) : M Str := if r.isNil then nilPan
 def TokenResponse.AccessToken! (r : TokenResponse) : M Str := if r.isNil then nilPanic else pure r.AccessToken
 def TokenResponse.RefreshToken! (r : TokenResponse) : M Str := if r.isNil then nilPanic else pure r.RefreshToken
 
+/-! ### internal/oidc: the in-memory store and its sessions (memory.go) -/
+
+structure AuthorizationState where
+  isNil : Bool := false
+  State : Str := []
+  Nonce : Str := []
+  RequestedURL : Str := []
+  CodeVerifier : Str := []
+  deriving Repr, BEq, DecidableEq
+
+structure Session where
+  isNil : Bool := false
+  tokenResponse : TokenResponse := { isNil := true }
+  authorizationState : AuthorizationState := { isNil := true }
+  added : Go.Time := {}
+  accessed : Go.Time := {}
+  deriving Repr, BEq, DecidableEq
+def Session.added! (s : Session) : M Go.Time := if s.isNil then nilPanic else pure s.added
+def Session.accessed! (s : Session) : M Go.Time := if s.isNil then nilPanic else pure s.accessed
+
+/-- `memoryStore` without its lock and logger: timeouts (ns), and the map of sessions -/
+structure MemoryStore where
+  isNil : Bool := false
+  absoluteSessionTimeout : Int := 0
+  idleSessionTimeout : Int := 0
+  sessions : Go.MapOf Session := []
+  deriving Repr, BEq, DecidableEq
+def MemoryStore.sessions! (m : MemoryStore) : M (Go.MapOf Session) := if m.isNil then nilPanic else pure m.sessions
+def MemoryStore.absoluteSessionTimeout! (m : MemoryStore) : M Int := if m.isNil then nilPanic else pure m.absoluteSessionTimeout
+def MemoryStore.idleSessionTimeout! (m : MemoryStore) : M Int := if m.isNil then nilPanic else pure m.idleSessionTimeout
+/-- `m.clock.Now()` -/
+def storeClockNow (env : Go.Env) (m : MemoryStore) : M Go.Time := if m.isNil then nilPanic else pure env.now
+
 structure OidcHandler where
   isNil : Bool := false
   config : OIDCConfig := {}
